@@ -173,6 +173,7 @@ def run_case(case, observe_each=False, full=False):
     sim.reset(salt=case.get('salt', 0), split_ptx=case.get('split', True))
     om = OutcomeMap(case.get('outcomes'))
     sim.W.outcome = om
+    sim.W.split_job_delete = bool(case.get('split_jobs'))
     text = case.get('yaml') or genwf.render(prog)
     sim.create_workflows(text)
     params = {}
